@@ -58,7 +58,7 @@ import (
 	"verifharness/hx"
 )
 
-const stallTimeout = 3 * time.Second
+const stallTimeout = 2 * time.Second
 
 // dropDelay: see runCase.
 var dropDelay = 5 * time.Millisecond
@@ -75,7 +75,8 @@ type sink interface {
 
 type recorder struct {
 	acts      []func(*hx.Out)
-	retryable bool
+	retryable bool // stalled right after a connection cut
+	stalled   bool // stalled
 }
 
 func (r *recorder) Op(kind string, format string, a ...any) {
@@ -99,16 +100,25 @@ func (r *recorder) Count(key string) { r.acts = append(r.acts, func(o *hx.Out) {
 // and the stream hangs; this is a liveness matter outside C13 and depends on a race inside the
 // client library; it also hits eth_subscribe when the connection is cut right after the answer.
 // The driver cuts connections only dropDelay after the last request arrived, and if the client
-// nevertheless stalls right after a cut, the case is re-run (at most 3 times, with a longer
+// nevertheless stalls right after a cut, the case is re-run (at most twice, with a longer
 // delay); a stall that persists is reported.
+//
+// Any other stall is treated the same way: the case is re-run with a doubled time limit, and the
+// stall is reported only if it shows in every attempt (a client that really hangs does so every
+// time; on a heavily loaded machine a single reaction can take seconds).
 func runCase(out *hx.Out, lines [][]string) {
-	delay := dropDelay
+	delay, limit := dropDelay, stallTimeout
 	for attempt := 0; ; attempt++ {
 		rec := &recorder{}
-		runCaseOnce(rec, lines, delay)
-		if rec.retryable && attempt < 3 {
-			out.Count("rerun_after_client_library_hang")
+		runCaseOnce(rec, lines, delay, limit)
+		if (rec.retryable || rec.stalled) && attempt < 2 {
+			if rec.retryable {
+				out.Count("rerun_after_client_library_hang")
+			} else {
+				out.Count("rerun_after_stall")
+			}
 			delay *= 4
+			limit *= 2
 			continue
 		}
 		for _, f := range rec.acts {
@@ -290,6 +300,7 @@ type env struct {
 	out    sink
 	rec    *recorder
 	delay  time.Duration
+	limit  time.Duration
 	lastDrop bool // the last reply of the current wait was a connection cut during a fetch
 	follow uint64
 	batch  uint64
@@ -401,7 +412,7 @@ func (e *env) flush() {
 // the second ExecutionClientLastFetchedBlock call of the operation marks the end of the head case
 // of streamLogsToChan (the first one comes from fetchLogsInBatches when all batches are done).
 func (e *env) wait(logs <-chan executionclient.BlockLogs, head bool) int {
-	timer := time.NewTimer(stallTimeout)
+	timer := time.NewTimer(e.limit)
 	defer timer.Stop()
 	for {
 		select {
@@ -456,6 +467,7 @@ func (e *env) wait(logs <-chan executionclient.BlockLogs, head bool) int {
 				return stIdle
 			}
 		case <-timer.C:
+			e.rec.stalled = true
 			if e.lastDrop {
 				e.rec.retryable = true
 			}
@@ -522,7 +534,7 @@ func (e *env) streamLoop(logs <-chan executionclient.BlockLogs) {
 	if e.state == stSub || e.state == stIdle {
 		e.endStream(logs)
 	} else if e.state == stStall {
-		e.out.ViolF("the client stalled (no reaction within %v)", stallTimeout)
+		e.out.ViolF("the client stalled (no reaction within %v, in each of 3 attempts)", e.limit)
 		e.endStream(logs)
 	}
 	e.state = stNone
@@ -657,8 +669,8 @@ func (e *env) doHist(w []string) {
 
 func u(s string) uint64 { v, _ := strconv.ParseUint(s, 10, 64); return v }
 
-func runCaseOnce(out *recorder, lines [][]string, delay time.Duration) {
-	e := &env{out: out, rec: out, delay: delay, follow: 0, batch: 1, chain: map[uint64][]clog{}, lines: lines}
+func runCaseOnce(out *recorder, lines [][]string, delay, limit time.Duration) {
+	e := &env{out: out, rec: out, delay: delay, limit: limit, follow: 0, batch: 1, chain: map[uint64][]clog{}, lines: lines}
 	defer e.closeClient()
 	for e.pos < len(e.lines) {
 		w := e.lines[e.pos]
